@@ -51,7 +51,7 @@ From Coq Require Import List ZArith Bool String.
 From PySMT.core Require Import Syntax PyPrims.
 From PySMT.models Require Import TypeChecker Oracles Ctors Simplifier.
 From PySMT.core Require Import Sem.
-From PySMT.proofs Require Import Simplifier_proofs SimplifierFold_proofs SimplifierSem_proofs SimplifierFoldComplete_proofs.
+From PySMT.proofs Require Import Simplifier_proofs SimplifierFold_proofs SimplifierSem_proofs SimplifierFoldComplete_proofs SimplifierFoldWide_proofs.
 Import ListNotations.
 
 (* "It never mentions a symbol that is not free in the original" - for all terms (no fragment
@@ -84,6 +84,18 @@ Theorem C01_fold_complete_partial : forall ora I t ty,
   cfrag t = true -> tc t = Some ty -> wfi I -> nodiv0 I t ->
   exists c, simplify_opt ora t = Some c /\ is_const c = true /\ tc c = Some ty /\ eval I c = eval I t.
 Proof. exact fold_complete_partial. Qed.
+(* (for C02) the same on a WIDER fragment [wfrag] (proofs/SimplifierFoldWide_proofs.v): additionally every string
+   operator and Select / Store / ArrayValue / Equals / Ite over constant array values; the result is a constant in
+   the sense of Ctors.is_constant (a scalar constant, or an array value all of whose components are constants),
+   of the sort of the term, inside the fragment, with the value of the term.  Extra side condition [strlim]: the
+   argument of every str.to_int has at most 4300 characters and the argument of every str.from_int is below
+   10^4300 (CPython's int <-> str limit modelled by core/PyPrims.v, beyond which the rule leaves the node). *)
+Theorem C01_fold_complete_wide_partial : forall ora I t ty,
+  wfrag t = true -> tc t = Some ty -> wfi I -> nodiv0 I t -> strlim I t ->
+  exists c, simplify_opt ora t = Some c /\ is_constant c = true /\ okt c = true /\ tc c = Some ty /\ eval I c = eval I t.
+Proof. exact fold_complete_wide. Qed.
+Theorem C01_cfrag_in_wfrag : forall t, cfrag t = true -> wfrag t = true.
+Proof. exact cfrag_wfrag. Qed.
 Theorem C01_wfi_satisfiable : wfi I0.
 Proof. exact wfi_I0. Qed.
 
@@ -103,6 +115,7 @@ Proof. exact const_args_fold. Qed.
 Print Assumptions C01_simplify_sound_partial.
 Print Assumptions C01_simplify_frag_closed.
 Print Assumptions C01_fold_complete_partial.
+Print Assumptions C01_fold_complete_wide_partial.
 Print Assumptions C01_simplify_no_new_symbols.
 Print Assumptions C01_simplify_total_no_new_symbols.
 Print Assumptions C01_simplify_idempotent_on_constants.
